@@ -144,9 +144,16 @@ class GateLock:
         self.real.release()
         return False
 
-    def acquire(self, *a, **k):
+    def acquire(self, blocking=True, timeout=-1):
         gate(self.executor, 'lock', None)
-        return self.real.acquire(*a, **k)
+        if blocking and timeout is not None and timeout >= 0:
+            # an acquire that can GIVE UP: no wall clock here — if it would have to wait, its timeout is taken to have
+            # expired at once (the holder may be parked by the schedule for as long as it likes)
+            got = self.real.acquire(False)
+            if not got:
+                self.gave_up = getattr(self, 'gave_up', 0) + 1
+            return got
+        return self.real.acquire(blocking, timeout)
 
     def release(self):
         return self.real.release()
@@ -535,6 +542,55 @@ def run_ops(ops, poll_timer=None):
                     f'{f.name}:{f.lineno}' for f in reversed(traceback.extract_tb(e.__traceback__)[-3:]))}
     finally:
         b.close()
+
+
+def run_backlog(case):
+    """SCALE: `n` filler tasks are handed to the REAL TaskHandler first and stay queued (the step executor starts nothing
+    by itself), then the ops (poll answers, register, unregister) are made behind that backlog, then everything is
+    released in submission order: fillers complete at once, apply tasks run.  Final state only."""
+    b = SvcBench()
+    out = {'degraded': list(b.degraded), 'raised': []}
+    try:
+        th = b.deep.task_handler
+        fill = []
+        for _ in range(case['n']):
+            try:
+                fill.append(th.submit_task(_filler))
+            except BaseException as e:  # noqa: B902
+                out['raised'].append(f'filler: {type(e).__name__}')
+                break
+        out['pending_at_ops'] = len(getattr(th, '_pending', ()) or ())
+        for op in case['ops']:
+            r = b.do(op)
+            if 'raised' in r or 'poll_raised' in r:
+                out['raised'].append(f'{op["op"]}: {r.get("raised") or r.get("poll_raised")}')
+        out['queued_after_ops'] = len([j for j in b.exec.jobs if j.fn is not _filler])
+        for j in list(b.exec.jobs):
+            if j.fn is _filler and j.phase == 'queued':
+                j.phase = 'done'
+                j.finished = True
+                j.future.set_running_or_notify_cancel()
+                j.future.set_result(None)
+        n = 0
+        while b.exec.waiting() and n < 500:
+            r = b.do({'op': 'applyTask', 'i': 0})
+            if 'task_raised' in r:
+                out['raised'].append('apply task: ' + r['task_raised'])
+            n += 1
+        out['final'] = b.snapshot()
+        out['degraded'] = list(b.degraded)
+        return out
+    except core.Infra:
+        raise
+    except BaseException as e:  # noqa: B902
+        out['bench_error'] = f'{type(e).__name__}: {e}'
+        return out
+    finally:
+        b.close()
+
+
+def _filler():
+    return None
 
 
 def run_closed(case):
